@@ -67,7 +67,11 @@ claim('C03', 'coercion table extraction (type-checked HIR) + value-provenance cl
       'Partial: every coercion table arm builds the value class of its declared type/template and every elementary type has an explicit arm; the stores that have a coercion (FOR control, typed I/O latch, initialisers) still pass through it; all 61 calls of the five storage mutators are classified by the provenance of the stored value (coerced / default / fresh instance / typed literal / same slot / external / uncoerced) against a frozen table, so a new store site or a coerced site becoming uncoerced is reported. The 12 uncoerced expression stores are a genuine design-level defect (known finding F4). Value ranges, element types and alias resolution are not decided.',
       _TB, 'DESIGN.md section 4 / C03')
 
+claim('C04', 'saturation-guard discharge on every counter site + argument provenance (instance locality) + call-graph clock rule + must-pass write-back rules',
+      'Thin: all 68 counter +/-1 sites are behind their saturation guard; all 89 state accesses of the builtin FBs use the call\'s own instance id and no global/static storage; no OS clock is reachable and elapsed time is ctx.now minus the instance\'s own last-call time (written only from ctx.now); every state variable an FB reads (and every output) is written back on every successful path, edge memory from this call\'s sample; RS/SR test their dominant input first. Q/ET values against the IEC diagrams and boundary equalities are value-level and not decided.',
+      _TB, 'DESIGN.md section 4 / C04')
+
 _PENDING = 'check not built yet in this commit (work in progress; see DESIGN.md section 10 for the build order)'
-for _p in ['C02','C04','C16']:
+for _p in ['C02','C16']:
     na(_p, _PENDING)
 na('C15', 'formatting token-sequence preservation and idempotence are equalities between values computed by string manipulation; no shape-of-code fact is a necessary condition that a realistic breaking edit would violate (DESIGN.md section 5)')
